@@ -743,6 +743,11 @@ pub fn run<'tcx>(tcx: TyCtxt<'tcx>) -> String {
                             Val::Int(i) if i.ty.bits > 8 => out.push(i.clone()),
                             Val::Tuple(t) => t.iter().for_each(|x| walk(x, out)),
                             Val::Arr(a) if a.len <= 4096 => (0..a.len).for_each(|k| walk(a.get(k), out)),
+                            Val::Enum(e) => {
+                                if let Some(fs) = e.variants.get(&0) {
+                                    fs.iter().for_each(|x| walk(x, out));
+                                }
+                            }
                             _ => {}
                         }
                     }
